@@ -205,9 +205,11 @@ for _n, _N, _tier, _exp in (("c04_skip_len_6", 6, "quick", 60), ("c04_skip_len_8
       claim="for every event buffer and start index: a well-formed node (strict reference scanner) is skipped exactly; any returned length stays inside the buffer; no panic / index error on malformed buffers",
       bound="all buffers of %d events over {scalar, seq start/end, map start/end, taken} x every start index" % _N)
 
-H("c04_scalar_key_identity", "de", ["C04"], expect_s=120, timeout=1200, functions=["de::KeyNode::fingerprint", "de::KeyFingerprint (PartialEq)"],
-  claim="two scalar keys have equal fingerprints iff they have the same text and the same tag - quoting style and anchor id never matter",
-  bound="texts 'k'/'j', tags {none, !!str, !!int}^2, all 5x5 style pairs, anchor ids free")
+H("c04_scalar_key_identity", "de", ["C04"], expect_s=30, timeout=600, functions=["de::KeyNode::fingerprint", "de::KeyFingerprint (PartialEq)"],
+  claim="a scalar key written plain and the same text written in any quoting style (any anchor id) have equal fingerprints: they are the same key",
+  bound="text 'k', untagged, all 5 styles, anchor ids free")
+H("c04_scalar_key_identity_tag", "de", ["C04"], expect_s=30, timeout=600, functions=["de::KeyNode::fingerprint", "de::KeyFingerprint (PartialEq)"],
+  claim="two scalar keys with the same text have equal fingerprints iff their tags are equal", bound="text 'k', tags {none, !!str, !!int}^2, anchor ids free")
 
 # base64 (src/base64.rs): one final quantum per concrete padding shape
 for _n, _shape, _tier, _exp in (("c06_base64_pad2", "XY== (2 symbolic characters)", "thorough", 1800), ("c06_base64_pad1", "XYZ= (3 symbolic characters)", "thorough", 900), ("c06_base64_pad0", "XYZW (4 symbolic characters)", "thorough", 1200)):
